@@ -143,6 +143,14 @@ def _demand(strategy):
     return d
 
 
+def _request(strategy):
+    """{(name, id or 'any'): quantity} of a strategy."""
+    d = {}
+    for res, q in strategy.resources.resources:
+        d[(res.name, res.id)] = d.get((res.name, res.id), 0) + q
+    return d
+
+
 def _shadow_usage(sw):
     use = {}
     for key, ent in sw["residents"].items():
@@ -151,9 +159,50 @@ def _shadow_usage(sw):
     return use
 
 
-def _shadow_fits(sw, demand):
-    use = _shadow_usage(sw)
-    return all(sw["cap"].get(n, 0) - use.get(n, 0) >= q for n, q in demand.items())
+def _shadow_free(sw):
+    f = dict(sw["cap_inst"])
+    for ent in sw["residents"].values():
+        for n, i, q in ent.get("alloc", ()):
+            f[(n, i)] = f.get((n, i), 0) - q
+    return f
+
+
+def _shadow_fits(sw, request):
+    """instance-level fit: specific ids from their instance, 'any' from what is left."""
+    f = _shadow_free(sw)
+    for name in {n for (n, _) in request}:
+        spec = 0
+        for (n, i), q in request.items():
+            if n == name and i != "any":
+                if q > f.get((n, i), 0):
+                    return False
+                spec += q
+        anyq = sum(q for (n, i), q in request.items() if n == name and i == "any")
+        if anyq + spec > sum(v for (n, i), v in f.items() if n == name):
+            return False
+    return True
+
+
+def _shadow_admit(ctx, sw, ent, request, reported, who):
+    """validate what the ledger reports for a new resident against the shadow, then adopt it."""
+    f = _shadow_free(sw)
+    by = {}
+    for n, i, q in reported:
+        if (n, i) not in sw["cap_inst"]:
+            ctx.violate("C01", "foreign_resource", f"{who} holds {n}:{i} which is not a resource of {sw['name']}")
+            continue
+        if q > f[(n, i)]:
+            ctx.violate("C01", "oversubscribed_instance", f"{who}: ledger gives {q} of {n}:{i} on {sw['name']} but only {f[(n, i)]} is free")
+        f[(n, i)] -= q
+        by[n] = by.get(n, 0) + q
+    want = {}
+    for (n, i), q in request.items():
+        want[n] = want.get(n, 0) + q
+        if i != "any" and sum(qq for nn, ii, qq in reported if nn == n and ii == i) < q:
+            ctx.violate("C04", "specific_id_not_honoured", f"{who} asked {n}:{i} x{q}, holds {reported}")
+    if {k: v for k, v in by.items() if v} != {k: v for k, v in want.items() if v}:
+        ctx.violate("C04", "resident_without_its_resources", f"{who} on {sw['name']} holds {reported}, its strategy demands {want}")
+    ent["alloc"] = list(reported)
 
 
 def _shadow_check(ctx, sw, why):
@@ -164,6 +213,9 @@ def _shadow_check(ctx, sw, why):
             ctx.violate("C01", "oversubscribed",
                         f"{why}: worker {sw['name']} resource {n}: demand {q} > capacity {sw['cap'].get(n, 0)}; "
                         f"residents={[(k, e['demand']) for k, e in sw['residents'].items()]}")
+    for (n, i), v in _shadow_free(sw).items():
+        if v < 0:
+            ctx.violate("C01", "oversubscribed_instance", f"{why}: worker {sw['name']} instance {n}:{i} over capacity by {-v}")
     nres = sum(len(e.get("members", [1])) for e in sw["residents"].values() if e["type"] != "profile")
     if nres >= 2:
         ctx.count("co_resident_instants")
@@ -206,7 +258,16 @@ def install():
                     ctx.violate("C19", "cluster_mismatch", f"worker {pool.name}/{w.name} not in description")
                     continue
                 sw = {"name": f"{pool.name}/{w.name}", "cap": worldgen.worker_capacity(d), "residents": {},
-                      "pool": pool.id, "wid": w.id, "obj": w}
+                      "pool": pool.id, "wid": w.id, "obj": w, "cap_inst": {}}
+                live_res = list(w.resources.resources)
+                if len(live_res) != len(d["resources"]):
+                    ctx.violate("C19", "cluster_mismatch", f"worker {sw['name']}: {len(live_res)} resources, description has {len(d['resources'])}")
+                for (res, q), rd in zip(live_res, d["resources"]):
+                    dn = rd["name"].split(":")
+                    if res.name != dn[0] or q != rd["quantity"] or (len(dn) > 1 and res.id != dn[1]):
+                        ctx.violate("C19", "cluster_mismatch", f"worker {sw['name']}: resource {res} x{q} vs description {rd}")
+                    # capacity from the description, identity (generated uuid) from the object
+                    sw["cap_inst"][(dn[0], res.id)] = rd["quantity"]
                 ctx.live[id(w)] = sw
                 sws.append(sw)
             ctx.live_pools[pool.id] = sws
@@ -358,6 +419,18 @@ def install():
         else:
             key = ("task", id(task))
             sw["residents"][key] = {"type": "task", "demand": _demand(execution_strategy), "members": {id(task)}}
+        try:
+            reported = sorted((res.name, res.id, q) for res, q in self.get_allocated_resources(task))
+        except Exception as e:  # ledger could not answer
+            ctx.violate("C04", "allocated_resources_unavailable", f"{r['uname']}: {type(e).__name__}: {e}")
+            reported = None
+        ent = sw["residents"][key]
+        if reported is not None:
+            if ent["type"] == "batch" and "alloc" in ent:
+                if reported != sorted(ent["alloc"]):
+                    ctx.violate("C04", "batch_member_allocation", f"{r['uname']} joined a batch but reports {reported}, the batch holds {ent['alloc']}")
+            else:
+                _shadow_admit(ctx, sw, ent, _request(execution_strategy), reported, r["uname"])
         r["worker"] = sw["name"]
         r["pool_id"] = sw["pool"]
         r["demand"] = _demand(execution_strategy)
@@ -365,14 +438,6 @@ def install():
         r["strategy_runtime"] = execution_strategy.runtime.time
         ctx.ev("PLACE", r["uname"], worker=sw["name"], demand=_demand(execution_strategy))
         _shadow_check(ctx, sw, f"place {r['uname']}")
-        # the ids the ledger reports for the task must all belong to this worker
-        try:
-            own = {(res.name, res.id) for res, _ in self.resources.resources}
-            for res, q in self.get_allocated_resources(task):
-                if (res.name, res.id) not in own:
-                    ctx.violate("C01", "foreign_resource", f"{r['uname']} holds {res} not owned by {sw['name']}")
-        except Exception as e:  # ledger could not answer
-            ctx.violate("C04", "allocated_resources_unavailable", f"{r['uname']}: {type(e).__name__}: {e}")
     wrap(Worker, "place_task", after=place_after)
 
     @active
@@ -399,8 +464,15 @@ def install():
         sw = ctx.live.get(id(self))
         if sw is None:
             return
-        sw["residents"][("profile", id(profile))] = {"type": "profile", "demand": _demand(loading_strategy),
-                                                       "name": profile.name}
+        ent = {"type": "profile", "demand": _demand(loading_strategy), "name": profile.name}
+        sw["residents"][("profile", id(profile))] = ent
+        import workload as wl
+        rep = []
+        for (n, i) in sw["cap_inst"]:
+            for comp, q in self.resources.get_allocated_computation(wl.Resource(name=n, _id=i)):
+                if comp is profile:
+                    rep.append((n, i, q))
+        _shadow_admit(ctx, sw, ent, _request(loading_strategy), sorted(rep), f"profile {profile.name}")
         ctx.count("live_load")
         ctx.ev("LOAD", profile.name, worker=sw["name"])
         _shadow_check(ctx, sw, f"load {profile.name}")
@@ -556,7 +628,8 @@ def install():
         if policymon.tasks_digest(workload) != call["digest_tasks"]:
             ctx.violate("C10", "side_effect_tasks", f"{call['policy']} at {call['t']} changed task state")
         policymon.check_decision(call, pls, lambda kind, detail: ctx.violate(
-            "C10", kind, f"{call['policy']} at t={call['t']}: {detail}"))
+            "C10", kind, f"{call['policy']} at t={call['t']}: {detail}",
+            greedy=call["policy"] in ("EDFScheduler", "FIFOScheduler", "LSFScheduler")))
         if call.get("input_infeasible"):
             ctx.count("schedule_calls_input_infeasible")
         for k in ("digest_cluster", "digest_tasks", "states"):
@@ -604,7 +677,8 @@ def install():
                         okp = any(fin) if gd["flags"][r["name"]]["terminal"] else all(fin)
                         if not okp:
                             ctx.violate("C18", "offered_before_parents_done",
-                                        f"{r['uname']} ({st}) offered at {now} with lookahead 0; parents done={list(zip(ps, fin))}")
+                                        f"{r['uname']} ({st}) offered at {now} with lookahead 0; parents done={list(zip(ps, fin))}",
+                                        zero_runtime_ancestors=_unfinished_ancestors_zero(ctx, r))
         if any(gd["flags"][ctx.tasks[tid]["name"]]["terminal"] or gd["flags"][ctx.tasks[tid]["name"]]["conditional"]
                for tid in got for gd in [ctx.graph_desc.get(ctx.tasks[tid]["gbase"])] if gd is not None and tid in ctx.tasks):
             ctx.count("frontier_calls_with_cond")
@@ -810,6 +884,29 @@ def _starved(ctx, r, memo=None):
     return starved(r["name"])
 
 
+def _unfinished_ancestors_zero(ctx, r):
+    """True iff every unfinished ancestor of the task (through unfinished nodes) has a
+    slowest-strategy runtime of 0, i.e. its estimated completion equals 'now'."""
+    gd = ctx.graph_desc.get(r["gbase"])
+    if gd is None:
+        return False
+    prof = {p["name"]: max(s["runtime"] for s in p["execution_strategies"]) for p in ctx.world["workload"]["profiles"]}
+    wp = {n["name"]: n["work_profile"] for n in gd["desc"]["graph"]}
+    seen, stack = set(), list(gd["parents"].get(r["name"], []))
+    while stack:
+        p = stack.pop()
+        if p in seen:
+            continue
+        seen.add(p)
+        rec = ctx.rec_by_name(r["graph"], p)
+        if rec is not None and (rec["finishes"] or rec["state"] == "CANCELLED"):
+            continue
+        if prof.get(wp[p], 1) != 0:
+            return False
+        stack.extend(gd["parents"].get(p, []))
+    return True
+
+
 def _scan_states(ctx):
     for tid, task in ctx.task_objs.items():
         r = ctx.tasks[tid]
@@ -868,7 +965,7 @@ def _placement_attempt_before(ctx, event):
     sws = ctx.live_pools.get(pl.worker_pool_id, [])
     if pl.execution_strategy is not None:
         import workload as wl
-        d = _demand(pl.execution_strategy)
+        d = _request(pl.execution_strategy)
         cands = [sw for sw in sws if pl.worker_id is None or sw["wid"] == pl.worker_id]
         fits = any(_shadow_fits(sw, d) for sw in cands)
         if isinstance(pl.execution_strategy, wl.BatchStrategy):
